@@ -295,7 +295,7 @@ theorem foldl_makeHot (l : List Nat) : ∀ (e : Exec), e.hot.Nodup → e.cold.No
     intro e hh hc hd
     have hf := makeHot_fields e a
     by_cases ha : a ∈ e.cold
-    · have hm : makeHot e a = { e with cold := e.cold.erase a, hot := e.hot ++ [a] } := by
+    · have hm : makeHot e a = { e with cold := e.cold.erase a, hot := e.hot ++ [a], qlog := e.qlog ++ [.makeHot a] } := by
         simp [makeHot, ha]
       have hnh : a ∉ e.hot := fun h1 => hd a h1 ha
       have hh' : (makeHot e a).hot.Nodup := by
@@ -457,7 +457,8 @@ theorem makeHot_get? (e : Exec) (id x : Nat) : (makeHot e id).get? x = e.get? x 
 
 theorem makeHot_cases (e : Exec) (id : Nat) :
     (id ∉ e.cold ∧ makeHot e id = e) ∨
-    (id ∈ e.cold ∧ makeHot e id = { e with cold := e.cold.erase id, hot := e.hot ++ [id] }) := by
+    (id ∈ e.cold ∧ makeHot e id =
+      { e with cold := e.cold.erase id, hot := e.hot ++ [id], qlog := e.qlog ++ [.makeHot id] }) := by
   by_cases hc : id ∈ e.cold
   · exact Or.inr ⟨hc, by simp [makeHot, hc]⟩
   · exact Or.inl ⟨hc, by simp [makeHot, hc]⟩
@@ -720,7 +721,8 @@ theorem pend_facts {e : Exec} (h : Inv e) {id : Nat} {rest : List Nat} (hh : e.h
       ((makeCold e id).setTask id t').cap = e.cap) := by
   have hnd := h.q.hnd
   rw [hh, List.nodup_cons] at hnd
-  have hmc : makeCold e id = { e with hot := rest, cold := e.cold ++ [id] } := by simp [makeCold, hh]
+  have hmc : makeCold e id = { e with hot := rest, cold := e.cold ++ [id], qlog := e.qlog ++ [.makeCold id] } := by
+    simp [makeCold, hh]
   rw [hmc]
   refine ⟨?_, rfl, by simp [Exec.get?, Exec.setTask, List.getElem?_set_self (get?_lt hg)], ?_, ?_, ⟨rfl, rfl, rfl⟩⟩
   · refine h.update hg (QStep.tick h.q hh false true (by simp)) true (by simp) ht' _ rfl
@@ -745,12 +747,13 @@ theorem pend_facts {e : Exec} (h : Inv e) {id : Nat} {rest : List Nat} (hh : e.h
 theorem removed_facts {e : Exec} (h : Inv e) {id : Nat} {rest : List Nat} (hh : e.hot = id :: rest)
     {t : TaskSt} (hg : e.get? id = some t) (t' : TaskSt) (ht' : TInv false t') (wk : List Nat) :
     ({ removeTask ((makeCold e id).setTask id t') id with woken := wk } : Exec) =
-      { e with tasks := e.tasks.set id t', hot := rest, woken := wk } ∧
-    Inv ({ e with tasks := e.tasks.set id t', hot := rest, woken := wk } : Exec) := by
+      { e with tasks := e.tasks.set id t', hot := rest, woken := wk, qlog := e.qlog ++ [.makeCold id] ++ [.remove id] } ∧
+    Inv ({ e with tasks := e.tasks.set id t', hot := rest, woken := wk, qlog := e.qlog ++ [.makeCold id] ++ [.remove id] } : Exec) := by
   have hnd := h.q.hnd
   rw [hh, List.nodup_cons] at hnd
   have hnc : id ∉ e.cold := fun hc => h.q.disj id (by simp [hh]) hc
-  have hmc : makeCold e id = { e with hot := rest, cold := e.cold ++ [id] } := by simp [makeCold, hh]
+  have hmc : makeCold e id = { e with hot := rest, cold := e.cold ++ [id], qlog := e.qlog ++ [.makeCold id] } := by
+    simp [makeCold, hh]
   refine ⟨by simp [hmc, removeTask, Exec.setTask, hnd.1, hnc, List.erase_append_right], ?_⟩
   refine h.update hg (QStep.tick h.q hh false false (by simp)) false (by simp [hnd.1, hnc]) ht' _ rfl (by simp)
     (by simp) rfl ?_ ?_ (fun x _ _ hx => hx) h.p
@@ -824,14 +827,14 @@ theorem StepFacts.ofRemoved {e : Exec} (h : Inv e) {id : Nat} {rest : List Nat} 
     {t : TaskSt} (hg : e.get? id = some t) (ht : TInv true t)
     (hk : (runTask t).2.1 = .dropped ∨ (runTask t).2.1 = .finished) (wk : List Nat) :
     StepFacts e id rest t
-      (({ e with tasks := e.tasks.set id (runTask t).1, hot := rest, woken := wk } : Exec),
+      (({ e with tasks := e.tasks.set id (runTask t).1, hot := rest, woken := wk, qlog := e.qlog ++ [.makeCold id] ++ [.remove id] } : Exec),
         decide ((runTask t).2.1 ≠ .dropped)) := by
   obtain ⟨s1, s2, s3, s4, s5⟩ := runTask_spec t ht
   have hinv := (removed_facts h hh hg (runTask t).1 (s1 (hk.elim Or.inl (fun h' => Or.inr (Or.inl h')))) wk).2
   have hnd := h.q.hnd
   rw [hh, List.nodup_cons] at hnd
   have hnc : id ∉ e.cold := fun hc => h.q.disj id (by simp [hh]) hc
-  have hout : inMap ({ e with tasks := e.tasks.set id (runTask t).1, hot := rest, woken := wk } : Exec) id = false := by
+  have hout : inMap ({ e with tasks := e.tasks.set id (runTask t).1, hot := rest, woken := wk, qlog := e.qlog ++ [.makeCold id] ++ [.remove id] } : Exec) id = false := by
     rw [inMap_false_iff]; simp [hnd.1, hnc]
   refine ⟨hinv, ⟨[], by simp⟩, ?_, ?_, fun _ => hout, ⟨_, ?_, Or.inl rfl⟩, ?_, ?_, ?_, ?_, ⟨rfl, rfl, rfl⟩⟩
   · intro x hx; simp [Exec.get?, List.getElem?_set_ne (Ne.symm hx)]
@@ -866,7 +869,8 @@ theorem tickStep_facts {e : Exec} (h : Inv e) {id : Nat} {rest : List Nat} (hh :
     ∃ t, e.get? id = some t ∧ TInv true t ∧ StepFacts e id rest t (tickStep e id) := by
   obtain ⟨t, hg, ht⟩ := h.get_of_mem (id := id) (Or.inl (by simp [hh]))
   refine ⟨t, hg, ht, ?_⟩
-  have hmc : makeCold e id = { e with hot := rest, cold := e.cold ++ [id] } := by simp [makeCold, hh]
+  have hmc : makeCold e id = { e with hot := rest, cold := e.cold ++ [id], qlog := e.qlog ++ [.makeCold id] } := by
+    simp [makeCold, hh]
   have hg' : (makeCold e id).get? id = some t := by rw [hmc]; exact hg
   obtain ⟨s1, s2, s3, s4, s5⟩ := runTask_spec t ht
   simp only [tickStep, runOne, hg']
@@ -880,7 +884,7 @@ theorem tickStep_facts {e : Exec} (h : Inv e) {id : Nat} {rest : List Nat} (hh :
     have heq := (removed_facts h hh hg t' (hr1 ▸ s1 (hk.elim Or.inl (fun h' => Or.inr (Or.inl h')))) e.woken).1
     rw [hr1, hr2] at this
     have he : removeTask ((makeCold e id).setTask id t') id =
-        ({ e with tasks := e.tasks.set id t', hot := rest, woken := e.woken } : Exec) := by
+        ({ e with tasks := e.tasks.set id t', hot := rest, woken := e.woken, qlog := e.qlog ++ [.makeCold id] ++ [.remove id] } : Exec) := by
       rw [← heq]; simp [hmc, removeTask, Exec.setTask]
     rw [he]; simpa using this
   · -- pending
